@@ -4,6 +4,13 @@ import SdnsVerif.Model.Ecs
 namespace Driver.C19
 open SdnsVerif.Model SdnsVerif.Model.Ecs SdnsVerif.Model.Util
 
+/-- a queued `PrefetchRequest`: the key and entry that claimed it and the options
+of the request copy (what the cache saw, i.e. after edns). -/
+structure PfItem where
+  key : Nat
+  ans : Nat
+  reqOpts : List Opt
+
 /-- pipeline state: edns + cache built from one config, entries stored so far,
 denied names with a shared RFC 8020 cut. -/
 structure State where
@@ -13,6 +20,10 @@ structure State where
   entries : List (Nat × Entry) := []   -- (key, entry): the abstract store
   edeAns : List Nat := []   -- answers whose entry preserved an extended error (`CacheEntry.ede`)
   cuts : List Nat := []
+  pf : Nat := 0             -- prefetch threshold (0 = no queue)
+  aged : List Nat := []     -- answers (= entry objects) whose remaining lifetime is below the threshold
+  claimed : List Nat := []  -- entry objects holding the prefetch claim
+  pfq : List PfItem := []   -- queued refreshes, oldest first
 
 /-! ### parsing -/
 
@@ -139,6 +150,10 @@ def serverOpts (copts : List Opt) : List Opt :=
     | _ => false
   (if cookie then [.other 10 "srv"] else []) ++ (if nsid then [.other 3 "srv"] else [])
 
+def parseKind (s : String) : Option RespKind :=
+  if s == "a" then some .success else if s == "nd" then some .nodata
+  else if s == "nx" then some .nxdomain else none
+
 def addCut (cuts : List Nat) (k : Nat) : List Nat := if cuts.contains k then cuts else k :: cuts
 
 def buildFrom (en f4 f6 m4 m6 nets : String) : Option BuildRes := do
@@ -163,7 +178,7 @@ def front (st : State) (client : Option Addr) (cd : Bool) (copts? : Option (List
   let fwd := setEdns0 st.ppol client copts
   let cs := requestScope st.ppol client (some fwd)
   { noedns := copts?.isNone, copts := copts, fwd := fwd, cs := cs,
-    view := rootView (hasEcs copts?) cd (hasEcs (some fwd)) cs.isSome }
+    view := rootView (ednsMarks copts?) cd (hasEcs (some fwd)) cs.isSome }
 
 def step (st : State) (w : List String) : State × String :=
   match w with
@@ -205,6 +220,14 @@ def step (st : State) (w : List String) : State × String :=
     match parseOpts opts with
     | some (some l) => (st, showOpts true (some (stripECS l)))
     | _ => (st, "bad-op")
+  | ["ecs", "wire", adm, opts] =>
+    -- the strict parser's option facts for a packet it admitted (`adm` is observed
+    -- by the driver: which shapes are admitted is the parser's business, C05)
+    match parseBool adm, parseOpts opts with
+    | some adm, some (some l) =>
+      if !adm then (st, "refused") else
+      (st, s!"ecs={boolStr (ednsMarks (some l))} nsid={boolStr (l.any (fun o => o.code == 3))} ka={boolStr (l.any (fun o => o.code == 11))}")
+    | _, _ => (st, "bad-op")
   | ["ecs", "readscope", opts] =>
     match parseOpts opts with
     | some o => (st, showPrefix? (readResponseScope o))
@@ -217,14 +240,16 @@ def step (st : State) (w : List String) : State × String :=
     match parseClient c false, parseOpts opts with
     | some c, some o => (st, showPrefix? (requestScope st.pol c o))
     | _, _ => (st, "bad-op")
-  | ["pipe", "new", en, f4, f6, m4, m6, nets, cap, _prefetch] =>
+  | ["pipe", "new", en, f4, f6, m4, m6, nets, cap, prefetch] =>
     match buildFrom en f4 f6 m4 m6 nets, cap.toNat? with
     | some r, some cap =>
-      ({ st with ppol := r.policy, cap := cap, entries := [], edeAns := [], cuts := [] }, s!"pol={boolStr r.policy.isSome}")
+      let pfv : Nat := prefetch.toNat?.getD 0
+      let st' : State := { pol := st.pol, ppol := r.policy, cap := cap, pf := pfv }
+      (st', s!"pol={boolStr r.policy.isSome}")
     | _, _ => (st, "bad-op")
-  | ["pipe", "q", c, proto, qid, cd, copts, ttl, uopts, ans] =>
-    match parseClient c true, qid.toNat?, parseBool cd, parseOpts copts, ttl.toNat?, parseOpts uopts, ans.toNat? with
-    | some client, some qid, some cd, some copts?, some ttl, some uopts, some ans =>
+  | ["pipe", "q", c, proto, qid, cd, copts, ttl, uopts, ans, kind] =>
+    match parseClient c true, qid.toNat?, parseBool cd, parseOpts copts, ttl.toNat?, parseOpts uopts, ans.toNat?, parseKind kind with
+    | some client, some qid, some cd, some copts?, some ttl, some uopts, some ans, some kind =>
       let f := front st client cd copts?
       let ka := (proto == "tcp" || proto == "wtcp") && f.copts.any (fun o => o.code == 11)
       match serveLookup encKey (storeFn st.entries) qid cd f.cs with
@@ -232,9 +257,14 @@ def step (st : State) (w : List String) : State × String :=
         -- `CacheEntry.ToMsg` re-attaches a preserved extended error on its own OPT
         let served : Option (List Opt) := if st.edeAns.contains e.ans then some [.other 15 "ede"] else none
         let ropt := replyOptions f.noedns served f.fwd (serverOpts f.copts) ka
+        -- the prefetch gate of `handleCacheHit`: claim the entry and queue a copy of this request
+        let st := if prefetchEnqueues (st.pf > 0) e (st.aged.contains e.ans) && !st.claimed.contains e.ans then
+            { st with claimed := e.ans :: st.claimed,
+                      pfq := st.pfq ++ [{ key := encKey e.qid e.cd e.scope, ans := e.ans, reqOpts := f.fwd }] }
+          else st
         (st, s!"up=hit ans={e.ans} ropt={showOpts false ropt} st=- ttl=- pf=-")
       | none =>
-        let e := storeEntry st.ppol f.cs uopts qid cd ttl st.cap ans
+        let e := storeEntry st.ppol f.cs uopts qid cd ttl st.cap ans kind
         let ropt := replyOptions f.noedns uopts f.fwd (serverOpts f.copts) ka
         let stS := match e.scope with
           | some p => showPrefix p
@@ -242,7 +272,7 @@ def step (st : State) (w : List String) : State × String :=
         let hasEde := (uopts.getD []).any (fun o => o.code == 15)
         ({ st with entries := insertEntry st.entries e, edeAns := if hasEde then ans :: st.edeAns else st.edeAns },
           s!"up={showOpts true (some f.fwd)} ans={ans} ropt={showOpts false ropt} st={stS} ttl={e.ttl} pf={boolStr (prefetchEligible e)}")
-    | _, _, _, _, _, _, _ => (st, "bad-op")
+    | _, _, _, _, _, _, _, _ => (st, "bad-op")
   | ["pipe", "forge", qid, cd, frm, to] =>
     -- a forged key collision: the entry stored for `frm` also sits under the key of `to`
     match qid.toNat?, parseBool cd, parseScopeTok frm, parseScopeTok to with
@@ -262,8 +292,37 @@ def step (st : State) (w : List String) : State × String :=
     | some client, some (some l) =>
       (st, s!"rcode=16 up=f ropt={showOpts true (some (badversReplyOptions st.ppol client l))}")
     | _, _ => (st, "bad-op")
-  | ["pipe", "age", _, _] => (st, "ok")
-  | ["pipe", "pfq"] => (st, "unmodelled")
+  | ["pipe", "age", _, _] =>
+    -- every stored entry object now has a tenth of its lifetime left
+    ({ st with aged := st.entries.map (·.2.ans) }, "ok")
+  | ["pipe", "pfq"] =>
+    -- the held queue is drained and the claims released; scoped entries are never in it
+    ({ st with pfq := [], claimed := st.claimed.filter (fun a => !(st.pfq.any (·.ans == a))) },
+      s!"n={st.pfq.length} scoped={(st.pfq.filter (fun i => ((storeFn st.entries i.key).bind (·.scope)).isSome)).length}")
+  | ["pipe", "refresh", ttl, uopts, ans] =>
+    match ttl.toNat?, parseOpts uopts, ans.toNat? with
+    | some ttl, some uopts, some ans =>
+      let hasEde := (uopts.getD []).any (fun o => o.code == 15)
+      -- `processPrefetch` for each queued item, in order; the i-th gets answer `ans + i`
+      let rec go (items : List PfItem) (i : Nat) (entries : List (Nat × Entry)) (ede : List Nat) (ups : List String) :
+          List (Nat × Entry) × List Nat × List String :=
+        match items with
+        | [] => (entries, ede, ups)
+        | it :: rest =>
+          let up := showOpts true (some (refreshForwarded st.ppol it.reqOpts))
+          -- `ReplaceIfCurrent`: only the entry object that claimed the refresh may be replaced
+          match storeFn entries it.key with
+          | some cur =>
+            if cur.ans == it.ans then
+              go rest (i + 1) (insertAt entries it.key (refreshEntry cur ttl (ans + i)))
+                (if hasEde then (ans + i) :: ede else ede) (ups ++ [up])
+            else go rest (i + 1) entries ede (ups ++ [up])
+          | none => go rest (i + 1) entries ede (ups ++ [up])
+      let (entries, ede, ups) := go st.pfq 0 st.entries st.edeAns []
+      ({ st with entries := entries, edeAns := ede, pfq := [],
+                 claimed := st.claimed.filter (fun a => !(st.pfq.any (·.ans == a))) },
+        s!"n={st.pfq.length} up={"|".intercalate ups}")
+    | _, _, _ => (st, "bad-op")
   | ["pipe", "nx", c, _proto, _qid, cd, copts, k] =>
     match parseClient c true, parseBool cd, parseOpts copts, k.toNat? with
     | some client, some cd, some copts?, some k =>
